@@ -80,7 +80,9 @@ print("Round 7 (ids L<n>-<a|b|c>): six new angles. Of 16, four were caught when 
 print("generator extension or a monitor added the same hour for a sibling change); 14 are caught now, L4-a and L4-b (value")
 print("copies of packets) are not counted as violations (section 12.2, seventh round).")
 print("Round 8 (ids M<n>-<a|b|c>): the sub-agents also got a description of what the framework does. Of 10, four were caught")
-print("when they arrived; 9 are caught now (M6-a by the thorough tier only), M5-a is not counted (section 12.2, eighth round).\n")
+print("when they arrived; 9 are caught now (M6-a by the thorough tier only), M5-a is not counted (section 12.2, eighth round).")
+print("Round 9 (ids N<n>-<a|b|c>): aimed at the properties with the fewest seeded changes. Of 9, one was caught when it arrived;")
+print("all 9 are caught now.\n")
 print("### 13.3 Property-preserving changes by independent sub-agents (`seeded/S<n>-<a..d>/`): must stay silent\n")
 print("Realistic changes that keep all 19 properties to the letter but alter observable behaviour, written as bait for")
 print("over-strict checks (each with a `show_test.go` that demonstrates the behavioural difference; S: round 4, Q: round 6). All 19 quick checks")
